@@ -1,5 +1,6 @@
 import Lean.Data.Json
 import DrummerVerif.Model.Loop
+import DrummerVerif.Model.Launch
 open Lean Drummer
 
 def jn (j : Json) (k : String) : Nat := (j.getObjValAs? Nat k).toOption.getD 0
@@ -161,7 +162,7 @@ partial def loop (h : IO.FS.Stream) (l : Drummer.Loop) : IO Unit := do
     | "schedule" =>
       let (cx, agree) := buildCtx l.db l.regions j
       if !agree then IO.println "sched classify-mismatch"; loop h l else
-      let r := if js j "mode" == "launch" then launch cx (jnums j "draws") else maintain cx (jnums j "draws")
+      let r := if js j "mode" == "launch" then launchF cx (jnums j "draws") else maintain cx (jnums j "draws")
       match r with
       | .panic _ => out "sched panic" l; loop h l
       | .error _ => out "sched error" l; loop h l
